@@ -105,6 +105,7 @@ type Host struct {
 
 // Sim is one simulated run.
 type Sim struct {
+	finalTraffic       bool
 	ctx                *runner.Ctx
 	src                *choice.Source
 	ex                 *coro.Exec
@@ -1168,6 +1169,7 @@ func (s *Sim) finalPhase() {
 	for _, c := range s.clients {
 		c.beginFinal()
 	}
+	s.finalTraffic = true
 	if !s.fairRounds(budget, func() bool { return s.orc.stableLeader() }) {
 		if !s.ctx.Violated() {
 			s.orc.livenessFailed("no leader")
@@ -1213,6 +1215,22 @@ func (s *Sim) fairRounds(budget int, done func() bool) bool {
 		s.afterStep()
 		if done() {
 			return true
+		}
+		// the shard is not where it has to be yet although every client has
+		// finished: keep requests coming (an idle shard may go quiescent, and a
+		// restarted non-voting member or witness, which never campaigns, is only
+		// brought up to date when there is traffic)
+		if s.finalTraffic && round%int(2*s.cfg.ElectionRTT) == int(2*s.cfg.ElectionRTT)-1 {
+			idle := true
+			for _, c := range s.clients {
+				if !c.finalDone() {
+					idle = false
+				}
+			}
+			if idle && len(s.clients) > 0 {
+				s.clients[0].finalLeft = 2
+				s.ctx.Count("probe.final_extra_traffic", 1)
+			}
 		}
 	}
 	return false
